@@ -1,4 +1,5 @@
 import SgVerif.C49.Model
+import SgVerif.C49.GenProgs
 import SgVerif.Common.Proto
 /-
 C49 driver.  Line: `<mode> <num_workers> <yield> <len_1> .. <len_k> => <len>:<once>:<never>:<more> ...`
@@ -6,6 +7,8 @@ The model answer is obtained by RUNNING the transition system of Model.lean (num
 under a pseudo-random schedule derived from the query (xorshift), until the controller returns from each apply; the
 counters `cnt` give once/never/more.  Monitor = the property itself on the implementation's answer: every element exactly
 once (`len:len:0:0`) for every apply.  (All three modes share the transition system: Props.lean `gen_*_core`.)
+In addition the GENERIC INTERPRETER (Interp.lean) runs the programs GENERATED from parmap.hpp for the line's mode under its own
+pseudo-random schedule; its counters must give the same summary as the hand-written system (`DISAGREE interp-vs-model`).
 -/
 open SgVerif.Proto
 namespace SgVerif.C49
@@ -28,13 +31,31 @@ def runApply (s : State) (len : Nat) (seed : Nat) : Option (State × Nat) :=
       if s'.m = .idle then some (s', seed) else go fuel s' seed
   go (200 * (len + n + 10)) s seed
 
-def summarize (s : State) (len : Nat) : String :=
-  let cs := (List.range (len + 2)).map s.cnt
+/-- the same with the interpreter of the generated programs of mode `P` -/
+def irunApply (P : Progs) (s : IState) (len : Nat) (seed : Nat) : Option (IState × Nat) :=
+  let s := istep P s (.apply len)
+  let n := s.ws.length + 1
+  let rec go (fuel : Nat) (s : IState) (seed : Nat) : Option (IState × Nat) :=
+    match fuel with
+    | 0 => none
+    | fuel + 1 =>
+      let seed := xs seed
+      let s' := istep P s (.thr ((seed >>> 11) % n))
+      if s'.ctl.stack.isEmpty then some (s', seed) else go fuel s' seed
+  go (1000 * (len + n + 10)) s seed
+
+def summarizeCnt (cnt : Nat → Nat) (len : Nat) : String :=
+  let cs := (List.range (len + 2)).map cnt
   let inr := cs.take len
   let once := (inr.filter (· == 1)).length
   let never := (inr.filter (· == 0)).length
   let more := (inr.filter (· > 1)).length + ((cs.drop len).filter (· != 0)).length
   s!"{len}:{once}:{never}:{more}"
+
+def summarize (s : State) (len : Nat) : String := summarizeCnt s.cnt len
+
+def modeOf (m : String) : Option Mode :=
+  if m == "posix" then some .posix else if m == "futex" then some .futex else if m == "busy" then some .busy else none
 
 def judge (q a : List String) : Verdict :=
   match q with
@@ -50,9 +71,18 @@ def judge (q a : List String) : Verdict :=
           match runApply s l seed with
           | none => none
           | some (s', seed') => applies s' ls seed' (summarize s' l :: acc)
+      let rec iapplies (P : Progs) (s : IState) (ls : List Nat) (seed : Nat) (acc : List String) : Option (List String) :=
+        match ls with
+        | [] => some acc.reverse
+        | l :: ls =>
+          match irunApply P s l seed with
+          | none => none
+          | some (s', seed') => iapplies P s' ls seed' (summarizeCnt s'.sh.cnt l :: acc)
+      let interp := (modeOf mode).bind fun md => iapplies (progs md) (iinit (nw - 1)) lens (seed0 + 1) []
       match applies (init (nw - 1)) lens seed0 [] with
       | none => .disagree "model-did-not-terminate"
       | some model =>
+        if interp ≠ some model then .disagree s!"interp-vs-model: interpreter of the generated programs {interp} hand-written system {model}" else
         let want := lens.map (fun l => s!"{l}:{l}:0:0")
         if a ≠ want then .monfail s!"some element not applied exactly once: expected {want} got {a}"
         else cmpAns model a
